@@ -137,6 +137,37 @@ A = {
  'C20c-lastvalue-kept-on-empty-add': dict(
     what='cache/cache.go Add: LastValue not updated by an empty value; the final output appends an older value', needs='last LOAD before the end returns empty content',
     history='initially MISSED (the content of the final output was not compared). Fixed by: C20_ExitValue (the value the engine sets aside, read from the engine object, equals the specification\'s) and an empty alternative for the last symbol of program "ends"'),
+ # ---- round 4
+ 'C01d-sizer-limit-in-uint16': dict(what='render/size.go: Sizer.outputSize stored as uint16 (a limit that is a multiple of 65536 becomes "no limit")', needs='OutputSize 65536 and a page longer than that',
+    history='initially MISSED (sizes up to 300). Fixed by: random render configurations with sizes at and beyond the 16-bit boundary and rows of 15-45 kB'),
+ 'C02d-page-reset-keeps-cursors-without-sink': dict(what='render/page.go Reset: the sizer (pagination cursors) is reset only if the page had a mapped sink', needs='long-lived engine: a sink-less page, then straight to a menu-sink (MSINK) node with several pages',
+    history='initially MISSED (no MSINK node at engine level; then: a sink page in between cleaned the cursors). Fixed by: walks go plain node -> menu-sink node -> plain node'),
+ 'C03d-rewind-tests-top-after-step': dict(what='vm/runner.go Rewind: tests "at the top?" after the step instead of before', needs='^ executed at depth 0', history='caught at once (C03_Step, C04_Nav)'),
+ 'C04d-state-fields-omitempty': dict(what='state/state.go: cbor omitempty on ExecPath and SizeIdx (a stored zero no longer overwrites what the State object holds)', needs='one unflushed Persister serving session X at index > 0, then stored session Y at index 0',
+    history='initially MISSED (kept persisters were only exercised WithFlush). Fixed by: kept unflushed persister for sessions the store already has, reuse pairs over TLC histories of the model programs (C07_Reuse); C04 itself has no persister-reuse stage'),
+ 'C05d-first-pushes-frame-before-blocked-return': dict(what='engine/db.go runFirst: cache frame pushed before the early return for a blocked session', needs='pre-VM check + blocked session + restart (ResetOnEmptyInput)',
+    history='caught at once by C08 (C08_ReqLevels) and C20 (C20_Blocked: a blocked request changes the session); C05 does not see it (instruction-level judgement starts from the logged cache, which already has the extra frame)'),
+ 'C06d-croak-sets-terminate-itself': dict(what='vm/runner.go runCroak: sets TERMINATE itself (also while input is being handled)', needs='CROAK that fires after an unmatched INCMP', history='caught at once (C06_Flags)'),
+ 'C07d-page-extra-survives-reset': dict(what='render/page.go Reset: the template suffix of a menu-sink page ("\\n{{._menu}}") is not cleared', needs='long-lived engine: MSINK node, then a node without any menu',
+    history='initially MISSED (no MSINK at engine level). Fixed by: model program msink (paged menu sink, plain node), MSINK in the generator'),
+ 'C08d-getat-bound-off-by-one': dict(what='render/size.go GetAt: idx > len instead of idx >= len', needs='next on the last page of a paged node', history='caught at once (C08_ReqNoPanic)'),
+ 'C09d-pop-sums-frame-in-uint16': dict(what='cache/cache.go Pop: frame bytes summed in a uint16', needs='frame holding >= 65536 bytes', history='caught at once (C09_Consistent, inductive-step stage)'),
+ 'C10d-seal-with-false-unlocks-for-good': dict(what='db/db.go SetLock(0, false): unlocks the read-only types and seals that', needs='seal issued with lock=false, then a Put to a read-only type', history='caught at once (C10_Result)'),
+ 'C11d-serialize-into-kept-buffer': dict(what='persist Serialize: encodes into a buffer kept in the Persister and returns it', needs='memory backend keeping the caller slice',
+    history='NEUTRALISED before evaluation: its only manifestation was the aliasing of the memory backend (Put kept the caller slice), which the strengthened KV driver found in the ORIGINAL code and which is repaired (a797238); with the repair the demonstration passes'),
+ 'C12d-flush-persister-not-repointed-after-first-save': dict(what='engine/db.go ensurePersist: the persister is not re-pointed at the engine state after the first Save of a new session (WithFlush)', needs='flush persister + new session',
+    history='not a crash-atomicity change (the record is wrong after a COMPLETED save): C12 does not see it; caught at once by C07 (C07_Reuse)'),
+ 'C13d-close-masks-commit-error': dict(what='db/postgres Close: a commit error of the open explicit transaction is dropped', needs='multi mode, Close with a failing commit',
+    history='initially MISSED (Close was not an operation of PgTx.tla). Fixed by: OpClose in the model, the exhaustive behaviours and the random driver'),
+ 'C14d-intsplit-three-byte-width-misaligned': dict(what='vm/vm.go intSplit: 3-byte integers left-aligned', needs='value 65536..16777215', history='caught at once (C14_DecodesBack)'),
+ 'C15d-catch-mode-byte-unguarded': dict(what='vm/vm.go parseSymSig: match-mode byte read unguarded', needs='CATCH cut right before the mode byte', history='caught at once (C15_NoPanic)'),
+ 'C16d-pooled-buffer-keeps-rejected-instruction': dict(what='asm/asm.go: per-instruction buffer from a sync.Pool, returned unflushed on error paths', needs='a rejected Parse call (over-long symbol in a 2-argument instruction), then a valid one in the same process',
+    history='initially MISSED (every case was assembled on its own, no rejected source before it). Fixed by: every third case is preceded by a source the assembler refuses half way through an instruction'),
+ 'C17d-initd-set-before-init-completes': dict(what='engine/db.go init: initd set before init has completed', needs='long-lived engine, over-long FIRST input', history='caught at once (C17_AsIfNeverSent)'),
+ 'C18d-init-no-language-for-first': dict(what='engine/db.go init: the session language is not put on the context of the pre-VM check', needs='pre-VM check + resumed session with a language', history='caught at once (C18_ExecLookups on a random program with a check)'),
+ 'C19d-shared-catch-code-line': dict(what='vm/runner.go: one package-level MOVE _catch line with spare capacity; fetched catch code is appended into it', needs='a _catch node of at most 7 bytes, two sessions',
+    history='initially MISSED (catch nodes of 8 bytes and more). Fixed by: 6-byte catch nodes (HALT / MOVE ^, as in examples/http) in half of the generated race programs'),
+ 'C20d-ignored-incmp-sets-readin': dict(what='vm/runner.go runInCmp: an ignored INCMP sets READIN again', needs='end node without HALT chosen by a non-final selector', history='caught at once (C20_Outcome, C03_Step)'),
 }
 for sid, a in A.items():
     mp = os.path.join(V, 'seeded', sid, 'meta.json')
